@@ -25,6 +25,8 @@ def cout(o):
         v = cspec(body['value'])
     elif 'bool' in body:
         v = f'(VBool {cbool(body["bool"])})'
+    elif 'flags' in body:
+        v = '(VList ' + clist([f'(VList [VStr {cstr(n)}; VBool {cbool(f)}; VBool {cbool(h)}])' for n, f, h in body['flags']]) + ')'
     else:
         v = 'VNone'
     return f'(VList [VStr (lit "ok"); {v}])'
@@ -45,6 +47,8 @@ def cop(op):
                 f' {cbool(op["recompute"])} {cbool(op["delete"])})')
     if k == 'has_data':
         return f'(OHasData {cnat(op["chain"])} {cstr(op["name"])})'
+    if k == 'flags':
+        return f'(OFlags {cnat(op["chain"])})'
     if k == 'restart':
         return 'ORestart'
     if k == 'fail':
@@ -71,7 +75,7 @@ def alt_base(rng, case):
     return {'name': 'alt', 'data': body}
 
 
-def gen_history(rng, case, max_ops=14):
+def gen_history(rng, case, max_ops=14, mix='all'):
     bases = [case['base']]
     ab = alt_base(rng, case)
     if ab is not None:
@@ -93,14 +97,19 @@ def gen_history(rng, case, max_ops=14):
         r = rng.random()
         if nchains == 0 or r < 0.08:
             build()
-        elif r < 0.6:
+        elif r < 0.6 or (mix == 'plain' and r < 0.8):
             ops.append({'op': 'value', 'chain': rng.randrange(nchains), 'pick': rng.randrange(64)})
-        elif r < 0.68:
+        elif r < 0.64 or (mix == 'plain' and r < 0.86):
             ops.append({'op': 'has_data', 'chain': rng.randrange(nchains), 'pick': rng.randrange(64)})
-        elif r < 0.76:
+        elif r < 0.68 or (mix == 'plain' and r < 0.9):
+            ops.append({'op': 'flags', 'chain': rng.randrange(nchains)})
+        elif mix == 'plain':
+            ops.append({'op': 'restart'})
+            nchains = 0
+        elif r < 0.76 or (mix == 'force' and r < 0.82):
             ops.append({'op': 'force_task', 'chain': rng.randrange(nchains), 'pick': rng.randrange(64),
                         'delete': rng.random() < 0.4})
-        elif r < 0.84:
+        elif r < 0.84 or (mix == 'force' and r < 0.95):
             ops.append({'op': 'force_chain', 'chain': rng.randrange(nchains),
                         'picks': [rng.randrange(64) for _ in range(rng.choice([1, 1, 2]))],
                         'recompute': (not failing) and rng.random() < 0.4, 'delete': rng.random() < 0.4})
@@ -141,6 +150,10 @@ def history_oracle(case, obs, checks):
     for s in steps:
         if isinstance(s['out'], dict):
             return f'unexpected exception in {s["op"]}: {s["out"]}'
+    if 'force' in checks:
+        m = force_oracle(case, steps)
+        if m:
+            return m
     refs = reference_chains(case, steps)
     stored_before = set()
     ever_forced_or_failed = False
@@ -171,6 +184,14 @@ def history_oracle(case, obs, checks):
                     if data != 'memory' and r in seen_runs:
                         return f'step {k}: {r} ran a second time although nothing was forced, failed or deleted'
                     seen_runs.add(r)
+            if kind == 'value' and s['out'] != 'error' and not ever_forced_or_failed and k > 0:
+                t = chain_obs(steps, k, op['chain'], op['name'])
+                if t is not None:
+                    data = next((c['data'] for c in case['classes'] if pl.slug_of(c) == t['slug']), 'json')
+                    path = '/'.join(t['slug'].split(':')) + f'/{t["key"]}.json'
+                    if data == 'json' and path in steps[k - 1]['files'] and s['runs']:
+                        return (f'step {k}: the result of {op["name"]} was stored ({path}) and nothing was forced, '
+                                f'but the request ran {s["runs"]}')
             if kind == 'value' and s['out'] != 'error' and not ever_forced_or_failed:
                 chains = refs[k]
                 ref = chains[op['chain']] if op['chain'] < len(chains) else None
@@ -181,6 +202,113 @@ def history_oracle(case, obs, checks):
                     extra = [r for r in s['runs'] if r not in allowed]
                     if extra:
                         return f'step {k}: request for {op["name"]} ran {extra}, which are not upstream of it'
+    return None
+
+
+def force_oracle(case, steps):
+    """Forcing marks exactly the named tasks and everything downstream; each forced task runs again
+    exactly once; delete_data removes exactly their results (all recomputed from observed edges)."""
+    chains = []          # per chain: dict(tasks={name: obs}, down={canon: set(canon)}, group)
+    forced = {}          # (group, slug#key) -> True once forced in this process
+    pending = set()      # forced and not yet re-run
+    group = 0
+    for k, s in enumerate(steps):
+        op = s['op']
+        kind = op['op']
+        if kind == 'restart':
+            chains, forced, pending = [], {}, set()
+            continue
+        if kind in ('build', 'multi'):
+            group += 1
+            body = s['out'][1] if s['out'] != 'error' else None
+            obs_list = ([body['chain']] if kind == 'build' else body['chains']) if body else [None] * (1 if kind == 'build' else len(op['bases']))
+            for o in obs_list:
+                if o is None:
+                    chains.append(None)
+                    continue
+                down = {}
+                for u, v in o['edges']:
+                    down.setdefault(u, set()).add(v)
+                chains.append(dict(tasks=o['tasks'], down=down, group=group))
+            continue
+        if kind == 'fail' or 'chain' not in op:
+            continue
+        ch = chains[op['chain']] if op['chain'] < len(chains) else None
+        if ch is None or s['out'] == 'error' and kind != 'value':
+            continue
+        if op.get('name') == '?' or (kind == 'value' and op.get('name') not in ch['tasks']):
+            continue
+
+        def ident(name):
+            t = ch['tasks'][name]
+            return (ch['group'], f"{t['slug']}#{t['key']}")
+
+        def closure(names):
+            todo = [ch['tasks'][n]['canon'] for n in names]
+            seen = set()
+            while todo:
+                c = todo.pop()
+                if c in seen:
+                    continue
+                seen.add(c)
+                todo += list(ch['down'].get(c, ()))
+            return seen
+        if kind == 'force_task':
+            forced[ident(op['name'])] = True
+            pending.add(ident(op['name']))
+        elif kind == 'force_chain':
+            members = closure(op['names'])
+            ids = {ident(c) for c in members}
+            for i in ids:
+                forced[i] = True
+            if op['recompute']:
+                want = sorted(i[1] for i in ids)
+                if sorted(s['runs']) != want:
+                    return (f'step {k}: force({op["names"]}, recompute=True) ran {sorted(s["runs"])}, the named tasks and '
+                            f'everything downstream are {want}: each must run exactly once')
+                pending -= ids
+            else:
+                pending |= ids
+            if op['delete']:
+                for c in members:
+                    t = ch['tasks'][c]
+                    data = next((x['data'] for x in case['classes'] if pl.slug_of(x) == t['slug']), 'json')
+                    path = '/'.join(t['slug'].split(':')) + f'/{t["key"]}.json'
+                    if data == 'json' and not op['recompute'] and path in s['files']:
+                        return f'step {k}: delete_data left {path} in place'
+        elif kind == 'flags' and s['out'] != 'error':
+            for n, f, h in s['out'][1]['flags']:
+                want = ident(n) in forced
+                if f != want:
+                    return f'step {k}: is_forced of {n} is {f}, expected {want} (forced so far: {sorted(i[1] for i in forced if i[0] == ch["group"])})'
+        elif kind == 'value':
+            me = ident(op['name'])
+            ran = [r for r in s['runs']]
+            if me in pending:
+                if ran.count(me[1]) != 1:
+                    return f'step {k}: forced task {op["name"]} ran {ran.count(me[1])} times on its next request (runs: {ran})'
+            if s['out'] != 'error':
+                for r in set(ran):
+                    pending.discard((ch['group'], r))
+            for r in set(ran):
+                if ran.count(r) > 1:
+                    return f'step {k}: {r} ran {ran.count(r)} times within one request'
+    return None
+
+
+def chain_obs(steps, k, chain, name):
+    """The observation (slug, key, ...) of task `name` of chain number `chain` of the process step k belongs to."""
+    cur = []
+    for s in steps[:k]:
+        op = s['op']
+        if op['op'] == 'restart':
+            cur = []
+        elif op['op'] == 'build':
+            cur.append(s['out'][1]['chain'] if s['out'] != 'error' else None)
+        elif op['op'] == 'multi':
+            cur += (s['out'][1]['chains'] if s['out'] != 'error' else [None] * len(op['bases']))
+    if chain < len(cur) and cur[chain] is not None:
+        return cur[chain]['tasks'].get(name)
     return None
 
 
@@ -211,6 +339,7 @@ Definition hist_model (c : World.world * list op) : list value :=
     eqb = 'vl_eqb'
     model = 'hist_model'
     quick_n, thorough_n = 40, 800
+    mix = 'all'
 
     def corpus(self):
         from .suites_chain import ChainBuild
@@ -229,6 +358,16 @@ Definition hist_model (c : World.world * list op) : list value :=
         c['ops'] = [{'op': 'build', 'base': c['base']}, {'op': 'value', 'chain': 0, 'pick': 1},
                     {'op': 'value', 'chain': 0, 'pick': 3}]
         out.append(c)
+        # a stored result downstream of an in-memory task, requested again by a new process
+        from .suites_chain import K
+        base = {'name': 'm', 'data': {'tasks': ['@M.*']}}
+        out.append(dict(classes=[K(0, 'Up', data='memory'), K(1, 'Mid', meta_inputs=[{'cls': 0}]),
+                                 K(2, 'Down', meta_inputs=[{'cls': 1}])],
+                        files={}, base=base, context=None,
+                        ops=[{'op': 'build', 'base': base}, {'op': 'value', 'chain': 0, 'pick': 2}, {'op': 'restart'},
+                             {'op': 'build', 'base': base}, {'op': 'value', 'chain': 0, 'pick': 2},
+                             {'op': 'flags', 'chain': 0}, {'op': 'value', 'chain': 0, 'pick': 1},
+                             {'op': 'build', 'base': base}, {'op': 'value', 'chain': 1, 'pick': 2}]))
         return out
 
     def gen(self, rng, tier):
@@ -236,7 +375,7 @@ Definition hist_model (c : World.world * list op) : list value :=
         out = []
         for _ in range(self.quick_n if tier == 'quick' else self.thorough_n):
             c = gen_case(rng)
-            c['ops'] = gen_history(rng, c)
+            c['ops'] = gen_history(rng, c, mix=self.mix)
             out.append(c)
         return out
 
